@@ -16,6 +16,8 @@
      um_number um_bool um_string um_null um_undef um_object um_ecma um_strict
                               the typed UnmarshalBinary methods (marker checked by the method itself)
      set_prop                 objectBase.Set (replace-if-present, else append)
+     gval, g_view, g_marshal, hop, h_step, h_run   histories of API calls on one object graph
+                              with the separately stored `count` fields (C05 histories)
      get_prop                 objectBase.Get
      wf_amf / wf_amfb         the value can be represented: bit patterns < 2^64, strings and keys
                               <= 65535 bytes of bytes < 256, ECMA count < 2^32, strict length < 2^32
@@ -624,10 +626,252 @@ Definition obs_res (r : res (amf * N)) (withenc : bool) : sx :=
   | Panic _ => s_panic
   end.
 
+(* ---- histories on one value (C05): the Go object graph with its separately stored counts ----
+   A container object is [GCont kind count props]: kind = its marker (Object / EcmaArray /
+   StrictArray), count = the struct field `count` (EcmaArray, StrictArray; 0 for Object, which
+   has none), props = objectBase.properties with the child OBJECTS (so a child can be changed
+   after it was put into its parent, as with Go pointers).  Scalars are immutable leaves.
+   No aliasing: every container is reachable by one path (the harness never stores one object
+   under two keys).
+     NewObject/NewEcmaArray/NewStrictArray : count 0, no properties
+     Set                : objectBase.Set on the property list; count untouched
+     UnmarshalBinary    : count = the count on the wire (a decoded strict array: its length)
+     MarshalBinary      : StrictArray: v.count = uint32(len(properties)), then written;
+                          EcmaArray: the stored count written as is; children marshalled
+                          recursively (their counts updated the same way) *)
+Inductive gval : Type :=
+| GLeaf (v : amf)
+| GCont (kind : N) (count : N) (ps : list (bytes * gval)).
+Definition gprops := list (bytes * gval).
+Definition gplen (ps : gprops) : N := N.of_nat (length ps).
+
+(* decoded = true: the value was produced by UnmarshalBinary (strict count = number of elements
+   read); false: built through the API (count 0) *)
+Fixpoint g_of_amf (decoded : bool) (v : amf) : gval :=
+  match v with
+  | AObj ps =>
+      GCont mObject 0
+        ((fix go (ps : props) : gprops :=
+            match ps with [] => [] | (k, x) :: t => (k, g_of_amf decoded x) :: go t end) ps)
+  | AEcma c ps =>
+      GCont mEcmaArray c
+        ((fix go (ps : props) : gprops :=
+            match ps with [] => [] | (k, x) :: t => (k, g_of_amf decoded x) :: go t end) ps)
+  | AStrict ps =>
+      GCont mStrictArray (if decoded then plen ps else 0)
+        ((fix go (ps : props) : gprops :=
+            match ps with [] => [] | (k, x) :: t => (k, g_of_amf decoded x) :: go t end) ps)
+  | _ => GLeaf v
+  end.
+Fixpoint g_of_props (decoded : bool) (ps : props) : gprops :=
+  match ps with [] => [] | (k, x) :: t => (k, g_of_amf decoded x) :: g_of_props decoded t end.
+
+Definition mk_cont (kind count : N) (ps : props) : amf :=
+  if kind =? mObject then AObj ps
+  else if kind =? mEcmaArray then AEcma count ps
+  else AStrict ps.
+
+(* the current value: the property lists in order (the strict count is not part of the value) *)
+Fixpoint g_view (g : gval) : amf :=
+  match g with
+  | GLeaf v => v
+  | GCont k c ps =>
+      mk_cont k c
+        ((fix go (ps : gprops) : props :=
+            match ps with [] => [] | (key, x) :: t => (key, g_view x) :: go t end) ps)
+  end.
+Fixpoint g_view_props (ps : gprops) : props :=
+  match ps with [] => [] | (key, x) :: t => (key, g_view x) :: g_view_props t end.
+
+(* MarshalBinary: the bytes and the object graph afterwards *)
+Fixpoint g_marshal (g : gval) : bytes * gval :=
+  match g with
+  | GLeaf v => (enc v, GLeaf v)
+  | GCont k c ps =>
+      let c' := if k =? mStrictArray then u32 (gplen ps) else c in
+      let '(body, ps') :=
+        (fix go (ps : gprops) : bytes * gprops :=
+           match ps with
+           | [] => ([], [])
+           | (key, x) :: t =>
+               let '(bx, x') := g_marshal x in
+               let '(bt, t') := go t in
+               (utf8_enc key ++ bx ++ bt, (key, x') :: t')
+           end) ps in
+      (k :: (if k =? mObject then [] else be4 c') ++ body
+         ++ (if k =? mStrictArray then [] else eof_bytes),
+       GCont k c' ps')
+  end.
+Fixpoint g_marshal_props (ps : gprops) : bytes * gprops :=
+  match ps with
+  | [] => ([], [])
+  | (key, x) :: t =>
+      let '(bx, x') := g_marshal x in
+      let '(bt, t') := g_marshal_props t in
+      (utf8_enc key ++ bx ++ bt, (key, x') :: t')
+  end.
+
+(* objectBase.Get / Set on a list of child objects *)
+Fixpoint gget_prop (ps : gprops) (k : bytes) : option gval :=
+  match ps with
+  | [] => None
+  | (k', v) :: t => if bytes_eqb k' k then Some v else gget_prop t k
+  end.
+Definition ghas_key (ps : gprops) (k : bytes) : bool := existsb (fun kv => bytes_eqb (fst kv) k) ps.
+Definition gset_prop (ps : gprops) (k : bytes) (v : gval) : gprops :=
+  if ghas_key ps k
+  then map (fun kv => if bytes_eqb (fst kv) k then (k, v) else kv) ps
+  else ps ++ [(k, v)].
+
+(* the object reached from g by Get(key1), Get(key2), ... *)
+Fixpoint g_at (path : list bytes) (g : gval) : option gval :=
+  match path with
+  | [] => Some g
+  | key :: rest =>
+      match g with
+      | GCont _ _ ps => match gget_prop ps key with Some x => g_at rest x | None => None end
+      | GLeaf _ => None
+      end
+  end.
+
+(* replace the object at a path by f of it (the first property with each key, as Get finds it) *)
+Fixpoint g_update (path : list bytes) (f : gval -> option gval) (g : gval) : option gval :=
+  match path with
+  | [] => f g
+  | key :: rest =>
+      match g with
+      | GCont k c ps =>
+          match (fix go (ps : gprops) : option gprops :=
+                   match ps with
+                   | [] => None
+                   | (k', x) :: t =>
+                       if bytes_eqb k' key
+                       then match g_update rest f x with Some x' => Some ((k', x') :: t) | None => None end
+                       else match go t with Some t' => Some ((k', x) :: t') | None => None end
+                   end) ps with
+          | Some ps' => Some (GCont k c ps')
+          | None => None
+          end
+      | GLeaf _ => None
+      end
+  end.
+
+Inductive hop : Type :=
+| HNew (kind : N)                                  (* a fresh container becomes the root *)
+| HSet (path : list bytes) (key : bytes) (x : gval) (* Set(key, x) on the container at path *)
+| HMarshal (path : list bytes)                     (* MarshalBinary of the object at path *)
+| HUnmarshal (kind : N) (b : bytes)                (* New<kind>().UnmarshalBinary(b) becomes the root *)
+| HGet (path : list bytes) (key : bytes)
+| HInspect (path : list bytes).
+
+Definition is_cont_kind (k : N) : bool := (k =? mObject) || (k =? mEcmaArray) || (k =? mStrictArray).
+
+Definition um_kind (kind : N) (b : bytes) : res (amf * N) :=
+  if kind =? mObject then um_object (dec_fuel b) b
+  else if kind =? mEcmaArray then um_ecma (dec_fuel b) b
+  else um_strict (dec_fuel b) b.
+
+Definition set_at (key : bytes) (x : gval) (g : gval) : option gval :=
+  match g with
+  | GCont k c ps => Some (GCont k c (gset_prop ps key x))
+  | GLeaf _ => None
+  end.
+
+(* one operation: the new object graph and the observation *)
+Definition h_step (g : gval) (op : hop) : gval * sx :=
+  match op with
+  | HNew k => if is_cont_kind k then (GCont k 0 [], s_ok []) else (g, bad_case)
+  | HSet path key x =>
+      match g_update path (set_at key x) g with
+      | Some g' => (g', s_ok [])
+      | None => (g, SL [SZ 1])
+      end
+  | HMarshal path =>
+      match g_at path g with
+      | Some sub =>
+          let '(b, sub') := g_marshal sub in
+          match g_update path (fun _ => Some sub') g with
+          | Some g' => (g', s_ok [SB b; sN (size (g_view sub'))])
+          | None => (g, SL [SZ 1])
+          end
+      | None => (g, SL [SZ 1])
+      end
+  | HUnmarshal k b =>
+      if is_cont_kind k then
+        match um_kind k b with
+        | Ok (v, n) => (g_of_amf true v, s_ok [sx_of_amf v; sN n])
+        | Err e => (g, s_err e)
+        | Panic _ => (g, s_panic)
+        end
+      else (g, bad_case)
+  | HGet path key =>
+      match g_at path g with
+      | Some (GCont _ _ ps) =>
+          match gget_prop ps key with
+          | Some x => (g, s_ok [sx_of_amf (g_view x)])
+          | None => (g, SL [SZ 1])
+          end
+      | _ => (g, SL [SZ 1])
+      end
+  | HInspect path =>
+      match g_at path g with
+      | Some (GCont k c ps) => (g, s_ok [sN k; sN c; sN (gplen ps)])
+      | _ => (g, SL [SZ 1])
+      end
+  end.
+
+Fixpoint h_run (g : gval) (ops : list hop) : gval :=
+  match ops with [] => g | op :: t => h_run (fst (h_step g op)) t end.
+
+Fixpoint h_obs (g : gval) (ops : list hop) : list sx :=
+  match ops with [] => [] | op :: t => let '(g', o) := h_step g op in o :: h_obs g' t end.
+
+Definition g0 : gval := GCont mObject 0 [].
+
+(* operations as s-expressions: (0 kind) (1 (xkey..) xkey tree) (2 (xkey..)) (3 kind xbytes)
+   (4 (xkey..) xkey) (5 (xkey..)) *)
+Fixpoint path_of_sx (l : list sx) : option (list bytes) :=
+  match l with
+  | [] => Some []
+  | SB k :: t => match path_of_sx t with Some p => Some (k :: p) | None => None end
+  | _ => None
+  end.
+
+Definition hop_of_sx (s : sx) : option hop :=
+  match s with
+  | SL [SZ 0%Z; SZ k] => Some (HNew (Z.to_N k))
+  | SL [SZ 1%Z; SL p; SB key; t] =>
+      match path_of_sx p, amf_of_sx true t with
+      | Some path, Some v => Some (HSet path key (g_of_amf false v))
+      | _, _ => None
+      end
+  | SL [SZ 2%Z; SL p] => match path_of_sx p with Some path => Some (HMarshal path) | None => None end
+  | SL [SZ 3%Z; SZ k; SB b] => Some (HUnmarshal (Z.to_N k) b)
+  | SL [SZ 4%Z; SL p; SB key] => match path_of_sx p with Some path => Some (HGet path key) | None => None end
+  | SL [SZ 5%Z; SL p] => match path_of_sx p with Some path => Some (HInspect path) | None => None end
+  | _ => None
+  end.
+
+Fixpoint hops_of_sx (l : list sx) : option (list hop) :=
+  match l with
+  | [] => Some []
+  | s :: t =>
+      match hop_of_sx s, hops_of_sx t with
+      | Some op, Some ops => Some (op :: ops)
+      | _, _ => None
+      end
+  end.
+
 (* C05 cases
    (0 tree)  build the tree through the API (Set), marshal, Size, unmarshal the bytes, re-marshal
              -> (0 xbytes size <decode observation>)
-   (1 xbytes) Discovery + UnmarshalBinary -> (0 tree size xreenc) | (1 code) | (2) *)
+   (1 xbytes) Discovery + UnmarshalBinary -> (0 tree size xreenc) | (1 code) | (2)
+   (2 ops)    a history of API calls on one object graph, starting from NewObject():
+              (0 kind) new root -> (0);  (1 path key tree) Set -> (0) | (1);
+              (2 path) MarshalBinary -> (0 xbytes size);  (3 kind xbytes) typed Unmarshal into a
+              fresh container, which becomes the root -> (0 tree size) | (1 code);
+              (4 path key) Get -> (0 tree) | (1);  (5 path) -> (0 kind count nprops)
+              -> the list of the per-operation observations *)
 Definition run_c05 (c : sx) : sx :=
   match c with
   | SL [SZ 0%Z; t] =>
@@ -636,6 +880,11 @@ Definition run_c05 (c : sx) : sx :=
       | None => bad_case
       end
   | SL [SZ 1%Z; SB b] => obs_res (decode_fast b) true
+  | SL [SZ 2%Z; SL ops] =>
+      match hops_of_sx ops with
+      | Some hs => SL (h_obs g0 hs)
+      | None => bad_case
+      end
   | _ => bad_case
   end.
 
